@@ -120,8 +120,14 @@ fn full_in_full(t: &mut Tape, forest: &mut [Node]) {
 
 fn stage(i: &Input, c: &mut Case) -> Result<(), String> {
     let mut t = Tape::new(i.tape());
-    let to = TreeOpts { max_nodes: 40, pay: PayOpts { big_left: 1, huge: false, max_small: 30 }, deep: t.chance(1, 2), ..TreeOpts::default() };
+    // one case in 40 may carry a payload beyond the 64 KiB mark (65 535 .. 2 MiB): large elements are where writers take short cuts
+    let huge = t.chance(1, 40);
+    let to = TreeOpts { max_nodes: if huge { 12 } else { 40 }, pay: PayOpts { big_left: if huge { 2 } else { 1 }, huge, max_small: 30 }, deep: t.chance(1, 2), ..TreeOpts::default() };
     let mut d = gen_doc(&mut t, SpecOpts::default(), to, EncOpts { widths: true, unknown: true, full: true, noncanonical: false });
+    if huge {
+        let n = *t.pick(&[65_535usize, 65_536, 65_537, 70_000, 131_072]);
+        enlarge_one_leaf(&mut t, &mut d.forest, n);
+    }
     full_in_full(&mut t, &mut d.forest);
     fix_widths(&mut d.forest);
     note_cleared(c, &d);
@@ -137,6 +143,7 @@ fn stage(i: &Input, c: &mut Case) -> Result<(), String> {
     }
     let non_minimal = any_node(&d.forest, &|n| n.enc.size_w != 0 && !n.enc.unknown && n.enc.size_w as usize != size_min_width(content_len(n) as u64));
     let full_with_master = any_node(&d.forest, &|n| n.enc.full && n.children().iter().any(|c| c.is_master()));
+    c.label_if(huge && any_node(&d.forest, &|n| content_len(n) >= 65_535 && !n.is_master()), "payload_64KiB_or_more");
     c.label_if(non_minimal, "width_not_minimal");
     c.label_if(full_with_master, "full_contains_master");
     c.key(&(d.spec.table().elems.clone(), &d.forest, &sched));
